@@ -207,7 +207,8 @@ func newSliceOrArrayAsListIterator(ctx *Context, sliceType reflect.Type) Iterato
 			context.NotifyNil()
 			return
 		}
-		if context.TryAddLocalReference(v) {
+		// Arrays are values, not references, so they cannot be shared or cyclic.
+		if v.Kind() != reflect.Array && context.TryAddLocalReference(v) {
 			return
 		}
 
